@@ -43,6 +43,10 @@ def step (st : S) (toks : List String) : S × String :=
     | some e => apply st (.boltRemove e) "newest-snapshot-removed"
     | none => (st, "bad-op")
   | ["zaprm", f] => apply st (.zapRemove f) "named-file-removed"
+  | ["aux", ints, aux, acked] =>
+    match Bleve.Drv.C04.natList ints, Bleve.Drv.C04.natList aux, Bleve.Drv.C04.natList acked with
+    | some i, some a, some d => (st, if Bleve.History.auxOK i a d then "ok" else "AUX-INCONSISTENT")
+    | _, _, _ => (st, "bad-op")
   | "echo" :: rest => (st, " ".intercalate rest)
   | _ =>
     let (h', out) := Bleve.Drv.C04.step st.h toks
